@@ -442,12 +442,52 @@ def check_subvectors(ctx, led, v, rule="C15.emit"):
         except Dead:
             led.violation(rule, "%s.%s::raises" % (om.clsname, meth), where, "%s() raises" % meth)
             continue
+        ck = "%s.%s" % (om.clsname, meth)
+        if isinstance(val, App) and val.op == "ite":
+            # several return paths: every arm must be the faithful sub-vector under its own condition
+            arms = []
+
+            def split(t, conds):
+                if isinstance(t, App) and t.op == "ite":
+                    split(t.args[1], conds + [t.args[0]])
+                    from .interp import mk_not as _not
+
+                    split(t.args[2], conds + [_not(t.args[0])])
+                else:
+                    arms.append((conds, t))
+
+            split(val, [])
+            bad_arm = None
+            for conds, t in arms:
+                st_a = st.copy()
+                try:
+                    for c in conds:
+                        om.ev.assume(st_a, c)
+                except Dead:
+                    continue
+                got_a = flatten_join(om, st_a, Canon(om.ev, st_a)(t))
+                exp_fields = [expected_subvector_field(om, st_a, spec, k) for k in spec["groups"][group]]
+                cn_a = Canon(om.ev, st_a)
+                if got_a is None or got_a[0] != "/" or len(got_a[1]) != len(exp_fields) or any(
+                    cn_a(x) != e for x, e in zip(got_a[1], exp_fields)
+                ):
+                    bad_arm = (conds, t)
+                    break
+            n += len(arms)
+            led.check(
+                bad_arm is None,
+                rule + ".value",
+                ck + " (conditional result)",
+                where,
+                "on some path %s() returns %s although the group's metrics can have other values on that path"
+                % (meth, _brief(bad_arm[1]) if bad_arm else ""),
+            )
+            continue
         cn = Canon(om.ev, st)
         fo = st.folder()
         want = spec["groups"][group]
         # the evaluator joins short literal lists into a concatenation; normalise both shapes
         got = flatten_join(om, st, val)
-        ck = "%s.%s" % (om.clsname, meth)
         if got is None:
             raise AnalysisError(rule, "%s() result has an unrecognised shape: %r" % (meth, val), f.node, om.module)
         sep, fields = got
@@ -503,6 +543,23 @@ def check_subvectors(ctx, led, v, rule="C15.emit"):
             if e.kind == "input_order_iter":
                 led.violation(rule + ".order", ck + "::iteration", e.where(), "iterates the parsed map: order follows the input")
     return n
+
+
+def expected_subvector_field(om, st, spec, k):
+    nd = spec["nd"]
+    modified_of = spec.get("modified_of", {})
+    fo = st.folder()
+    s = metric_slot(k)
+    if k in modified_of:
+        b = modified_of[k]
+        sb_ = metric_slot(b)
+        sl, rows = fo.rows(tuple(sorted([s, sb_])))
+        tab = {}
+        for r in rows:
+            vk, vb = r[sl.index(s)], r[sl.index(sb_)]
+            tab[r] = "%s:%s" % (k, vb if vk in (ABSENT, nd) else vk)
+        return fo.simplify(Fin(sl, tab))
+    return fo.simplify(Fin((s,), dict(((x,), "%s:%s" % (k, nd if x is ABSENT else x)) for x in fo.domain(s))))
 
 
 def flatten_join(om, st, val):
